@@ -160,6 +160,43 @@ theorem C26_runs_within_allowance (n : Nat) (runs : List (List Case)) :
     ∀ pre r post, executedRuns n runs = pre ++ r :: post → allSucceeded r = true → post = [] :=
   ⟨executedRuns_length n runs, executedRuns_prefix n runs, fun pre r post h hr => executedRuns_stop n runs pre r post h hr⟩
 
+/-- … and it does not stop early (the statement above alone is met by performing no run at all): the loop either
+    uses up the allowance or the runs there are, or its last run is one in which everything succeeded. -/
+theorem C26_runs_not_short (n : Nat) (runs : List (List Case)) :
+    (executedRuns n runs).length = min n runs.length ∨
+      ∃ r, (executedRuns n runs).getLast? = some r ∧ allSucceeded r = true := by
+  induction n generalizing runs with
+  | zero => left; cases runs <;> simp [executedRuns]
+  | succ n ih =>
+    cases runs with
+    | nil => left; simp [executedRuns]
+    | cons run rest =>
+      unfold executedRuns
+      by_cases h : allSucceeded run = true
+      · right; exact ⟨run, by simp [h], h⟩
+      · simp only [h, Bool.false_eq_true, if_false]
+        rcases ih rest with hl | ⟨r, hr, hs⟩
+        · left; simp only [List.length_cons, hl]; omega
+        · right
+          refine ⟨r, ?_, hs⟩
+          cases he : executedRuns n rest with
+          | nil => rw [he] at hr; simp at hr
+          | cons a l => rw [he] at hr; rw [List.getLast?_cons_cons]; exact hr
+
+example : executedRuns 3 [[⟨"", "a", [Exec.fail]⟩], [⟨"", "a", [Exec.pass]⟩], [⟨"", "a", [Exec.fail]⟩]]
+    = [[⟨"", "a", [Exec.fail]⟩], [⟨"", "a", [Exec.pass]⟩]] := by decide
+
+/-- "Reports the same test cases with the same outcome counts", on the modelled part: a single run whose cases have
+    distinct (class, name) is reported as it is … -/
+example : flakeLoop 1 [[⟨"C", "a", [Exec.fail]⟩, ⟨"C", "b", [Exec.pass]⟩, ⟨"D", "a", [Exec.skipped]⟩]] []
+    = [⟨"C", "a", [Exec.fail]⟩, ⟨"C", "b", [Exec.pass]⟩, ⟨"D", "a", [Exec.skipped]⟩] := by decide
+/-- … but two cases written with the same class and name (repeated cases) are merged by `TestSuite.Add`: the suite
+    reports ONE case, a flake, and the target passes although the run's own `AllSucceeded` was false. -/
+theorem C26_witness_repeated_case_merged :
+    ∃ run : List Case, allSucceeded run = false ∧ (flakeLoop 1 [run] []).length < run.length ∧
+      allSucceeded (flakeLoop 1 [run] []) = true :=
+  ⟨[⟨"", "A", [Exec.fail]⟩, ⟨"", "A", [Exec.pass]⟩], by decide, by decide, by decide⟩
+
 /-- The target is reported as passing exactly when every case that ran (in any of the executed runs) has,
     in one of the executed runs, an execution that succeeded or was skipped. -/
 theorem C26_passes_iff (n : Nat) (runs : List (List Case)) :
